@@ -10,3 +10,9 @@ Proof. reflexivity. Qed.
 (* a pass starts only when the head of the queue is due: if (pe.dt > recent) return; *)
 Lemma tie_pass_due_test : Params_gen.pass_due_test = "pe.dt>recent"%string.
 Proof. reflexivity. Qed.
+(* squareroot() as generated from today's qmail-send.c by tools/c2gallina.py is the model's squareroot, for every age
+   below 2^32: the theorem squareroot_exact is therefore about what the code says now *)
+From NQ Require Base.MiniC gen.CGen Tie.GenCommon Tie.Gen_numbers.
+Lemma tie_generated_squareroot : forall x : Z, 0 <= x < 2 ^ 32 ->
+  GenCommon.retval (CGen.C_squareroot.run 17 x) = Some (Sched.squareroot x).
+Proof. exact Gen_numbers.gen_squareroot_eq. Qed.
